@@ -155,17 +155,17 @@ Proof.
 Qed.
 
 (* the joined arrays are the canonical segment list *)
-Theorem join_canon p :
+Theorem join_core_canon p :
   Forall (fun r => length r = length (dt p)) (c_coeffs p) ->
   Forall (fun r => length r = length (dt p)) (n_coeffs p) -> 1 <= length (dt p) ->
-  let '(cc, nc, dts) := join_equal_segments fadd p in segs_of cc nc dts = canon fadd p.
+  let '(cc, nc, dts) := join_core fadd p in segs_of cc nc dts = canon_prefix fadd p.
 Proof.
   intros Hc Hn HG.
   pose proof (equal_mask_segments p Hc Hn HG) as Hm.
   assert (Hlen : length (dt p) = S (length (equal_mask p))).
   { rewrite Hm, seg_mask_length. unfold segments, segs_of, seg. rewrite !combine_length, !transpose_length. lia. }
   rewrite join_as_mask by lia.
-  unfold segs_of, canon. rewrite merge_runs_mask, <- Hm.
+  unfold segs_of, canon_prefix. rewrite merge_runs_mask, <- Hm.
   rewrite (join_dt_length [] (dt p) (equal_mask p) Hlen).
   rewrite !transpose_del_mask by (rewrite <- Hlen; assumption).
   rewrite <- Hlen.
@@ -174,6 +174,107 @@ Proof.
   rewrite map_snd_combine by (rewrite combine_length, !transpose_length; lia).
   rewrite del_mask_combine by (rewrite !transpose_length; reflexivity).
   reflexivity.
+Qed.
+
+(* ---------- zero-duration segments are dropped first (fix ac70929) *)
+Fixpoint count_true (m : list bool) : nat := match m with [] => 0 | true :: r => S (count_true r) | false :: r => count_true r end.
+
+Lemma keep_mask_length {A} (l : list A) m : length l = length m -> length (keep_mask l m) = count_true m.
+Proof.
+  revert m; induction l as [|x r IH]; intros [|b m] H; simpl in *; try lia; auto.
+  destruct b; simpl; rewrite IH by lia; reflexivity.
+Qed.
+Lemma keep_mask_filter {A} (f : A -> bool) (l : list A) : keep_mask l (map f l) = filter f l.
+Proof. induction l as [|x r IH]; simpl; auto. destruct (f x); rewrite IH; reflexivity. Qed.
+Lemma keep_mask_combine {A B} (a : list A) (b : list B) m : length a = length b ->
+  keep_mask (combine a b) m = combine (keep_mask a m) (keep_mask b m).
+Proof.
+  revert b m; induction a as [|x a IH]; intros [|y b] m H; simpl in *; try lia.
+  - destruct m; reflexivity.
+  - destruct m as [|c m]; [reflexivity|]. destruct c; simpl; rewrite IH by lia; reflexivity.
+Qed.
+Lemma transpose_keep_mask m rows : Forall (fun r => length r = length m) rows ->
+  transpose (count_true m) (map (fun r => keep_mask r m) rows) = keep_mask (transpose (length m) rows) m.
+Proof.
+  revert rows; induction m as [|b m IH]; intros rows H.
+  - simpl. reflexivity.
+  - assert (Hmap : forall (T : Type) (f g : list num -> T), (forall r, length r = S (length m) -> f r = g r) -> map f rows = map g rows).
+    { intros T f g Hfg. apply map_ext_in. intros r Hr. apply Hfg. rewrite Forall_forall in H. apply (H r Hr). }
+    assert (Htl : Forall (fun r => length r = length m) (map (@tl num) rows)).
+    { rewrite Forall_map. eapply Forall_impl; [|exact H]. intros [|x r]; simpl; intros; lia. }
+    specialize (IH _ Htl).
+    change (length (b :: m)) with (S (length m)). rewrite (transpose_S (length m) rows).
+    destruct b.
+    + change (count_true (true :: m)) with (S (count_true m)). rewrite transpose_S.
+      change (keep_mask (map (hd d0) rows :: transpose (length m) (map (@tl num) rows)) (true :: m))
+        with (map (hd d0) rows :: keep_mask (transpose (length m) (map (@tl num) rows)) m).
+      rewrite <- IH. f_equal.
+      * rewrite map_map. apply Hmap. intros [|x r] Hr; simpl in *; [lia | reflexivity].
+      * f_equal. rewrite !map_map. apply Hmap. intros [|x r] Hr; simpl in *; [lia | reflexivity].
+    + change (count_true (false :: m)) with (count_true m).
+      change (keep_mask (map (hd d0) rows :: transpose (length m) (map (@tl num) rows)) (false :: m))
+        with (keep_mask (transpose (length m) (map (@tl num) rows)) m).
+      rewrite <- IH. f_equal. rewrite map_map. apply Hmap. intros [|x r] Hr; simpl in *; [lia | reflexivity].
+Qed.
+
+Lemma segments_nonzero_mask p : map seg_nonzero (segments p) = map nonzero_dt (dt p).
+Proof.
+  transitivity (map nonzero_dt (map snd (segments p))); [rewrite map_map; reflexivity|]. f_equal.
+  unfold segments, segs_of. apply map_snd_combine. rewrite combine_length, !transpose_length. lia.
+Qed.
+Lemma existsb_map {A} (f : A -> bool) l : existsb (fun b => b) (map f l) = existsb f l.
+Proof. induction l; simpl; auto. rewrite IHl. reflexivity. Qed.
+Lemma forallb_map' {A} (f : A -> bool) l : forallb (fun b => b) (map f l) = forallb f l.
+Proof. induction l; simpl; auto. rewrite IHl. reflexivity. Qed.
+
+(* the columns of the pulse without its zero-duration segments are the effective segments *)
+Theorem segments_drop_zero p :
+  Forall (fun r => length r = length (dt p)) (c_coeffs p) ->
+  Forall (fun r => length r = length (dt p)) (n_coeffs p) ->
+  segments (drop_zero p) = effective_segments p.
+Proof.
+  intros Hc Hn. unfold drop_zero, effective_segments.
+  rewrite <- (existsb_map seg_nonzero), <- (forallb_map' seg_nonzero), segments_nonzero_mask.
+  destruct (existsb (fun b => b) (map nonzero_dt (dt p)) && negb (forallb (fun b => b) (map nonzero_dt (dt p)))); [|reflexivity].
+  unfold segments, segs_of. cbn [c_coeffs n_coeffs dt].
+  set (nz := map nonzero_dt (dt p)).
+  assert (Ln : length (dt p) = length nz) by (unfold nz; rewrite map_length; reflexivity).
+  rewrite (keep_mask_length (dt p) nz Ln).
+  rewrite !transpose_keep_mask by (rewrite <- Ln; assumption). rewrite <- Ln.
+  rewrite <- keep_mask_combine by (rewrite !transpose_length; reflexivity).
+  rewrite <- keep_mask_combine by (rewrite combine_length, !transpose_length; lia).
+  rewrite <- (keep_mask_filter seg_nonzero). f_equal.
+  fold (segs_of (c_coeffs p) (n_coeffs p) (dt p)). fold (segments p). rewrite segments_nonzero_mask. reflexivity.
+Qed.
+
+Lemma drop_zero_rows p :
+  Forall (fun r => length r = length (dt p)) (c_coeffs p) ->
+  Forall (fun r => length r = length (dt p)) (n_coeffs p) -> 1 <= length (dt p) ->
+  Forall (fun r => length r = length (dt (drop_zero p))) (c_coeffs (drop_zero p)) /\
+  Forall (fun r => length r = length (dt (drop_zero p))) (n_coeffs (drop_zero p)) /\ 1 <= length (dt (drop_zero p)).
+Proof.
+  intros Hc Hn HG. unfold drop_zero.
+  destruct (existsb (fun b => b) (map nonzero_dt (dt p)) && negb (forallb (fun b => b) (map nonzero_dt (dt p)))) eqn:E; [|auto].
+  cbn [c_coeffs n_coeffs dt]. set (nz := map nonzero_dt (dt p)) in *.
+  assert (Ln : length (dt p) = length nz) by (unfold nz; rewrite map_length; reflexivity).
+  rewrite (keep_mask_length (dt p) nz Ln).
+  repeat split.
+  - rewrite Forall_map. eapply Forall_impl; [|exact Hc]. intros r Hr. cbv beta in *. apply keep_mask_length. congruence.
+  - rewrite Forall_map. eapply Forall_impl; [|exact Hn]. intros r Hr. cbv beta in *. apply keep_mask_length. congruence.
+  - apply andb_true_iff in E. destruct E as [E _]. clear -E. induction nz as [|b nz IH]; simpl in *; [discriminate|].
+    destruct b; [lia|]. apply IH. exact E.
+Qed.
+
+(* the joined arrays are the canonical segment list *)
+Theorem join_canon p :
+  Forall (fun r => length r = length (dt p)) (c_coeffs p) ->
+  Forall (fun r => length r = length (dt p)) (n_coeffs p) -> 1 <= length (dt p) ->
+  let '(cc, nc, dts) := join_equal_segments fadd p in segs_of cc nc dts = canon fadd p.
+Proof.
+  intros Hc Hn HG. destruct (drop_zero_rows p Hc Hn HG) as (Hc' & Hn' & HG').
+  pose proof (join_core_canon (drop_zero p) Hc' Hn' HG') as K. unfold join_equal_segments.
+  destruct (join_core fadd (drop_zero p)) as [[cc nc] dts]. rewrite K.
+  unfold canon_prefix, canon. rewrite (segments_drop_zero p Hc Hn). reflexivity.
 Qed.
 
 (* ---------- properties of the canonical form *)
